@@ -37,6 +37,7 @@ class Switchboard:
     self.on_call: Callable | None = None
     self.on_done: Callable | None = None     # (address, call index, method, outcome, result or exception)
     self.hold: dict[tuple[str, int], threading.Event] = {}
+    self.reply_delay: dict[str, float] = {}      # address -> real seconds every (non-heartbeat) answer of it is late
 
   def reset(self):
     with self.lock:
@@ -46,6 +47,7 @@ class Switchboard:
       self.log.clear()
       self.dead.clear()
       self.hold.clear()
+      self.reply_delay.clear()
       self.on_call = None
       self.on_done = None
 
@@ -161,6 +163,10 @@ class Client:
         if isinstance(outcome, tuple) and outcome[0] == 'app_error':
           raise outcome[1]
         res = handler(*args, **kwargs)
+        late = BOARD.reply_delay.get(self.address, 0) if method != 'heartbeat' else 0
+        if late:
+          import time as _t
+          _t.sleep(late)          # the work is done, the answer is slow
         if outcome == 'response_lost':
           done(DeadlineExceeded())
           fut.set_exception(DeadlineExceeded())
